@@ -472,6 +472,31 @@ pub fn http_get(path: &str, extra_headers: &str) -> Vec<u8> {
     format!("GET {} HTTP/1.1\r\nHost: t\r\n{}\r\n", path, extra_headers).into_bytes()
 }
 
+/// Thread states of a child process read from /proc (no ptrace: attaching would interrupt its system calls)
+pub fn proc_thread_states(pid: u32) -> Vec<String> {
+    let mut v = Vec::new();
+    if let Ok(rd) = std::fs::read_dir(format!("/proc/{}/task", pid)) {
+        for e in rd.flatten() {
+            let p = e.path();
+            let rd = |f: &str| std::fs::read_to_string(p.join(f)).unwrap_or_default().trim().to_string();
+            let stat = rd("stat");
+            let fields: Vec<&str> = stat.rsplit(')').next().unwrap_or("").split_whitespace().collect();
+            v.push(format!("{} state={} wchan={} syscall={} utime={} stime={}", rd("comm"), fields.first().unwrap_or(&"?"), rd("wchan"), rd("syscall").split(' ').next().unwrap_or("?"), fields.get(11).unwrap_or(&"?"), fields.get(12).unwrap_or(&"?")));
+        }
+    }
+    v
+}
+
+/// Does the HTTP tracker answer a plain announce on a fresh connection to `addr` within 5 s?
+pub fn http_alive(addr: SocketAddr, tag: u64) -> bool {
+    let mut h = [0x5a_u8; 20];
+    h[..8].copy_from_slice(&tag.to_be_bytes());
+    match HttpConn::connect(addr) {
+        Some(mut c) => c.send(&http_get(&http_announce_path(&h, &[b'L'; 20], 4000, 1, "started", None, 0), "")) && c.read_reply().is_ok(),
+        None => false,
+    }
+}
+
 // ---------------------------------------------------------------------------------------------
 // Minimal WebSocket client (tungstenite over a blocking TcpStream)
 
